@@ -41,6 +41,8 @@ def run(pid, tier, seed):
       for mv in (None, 2, 0):
         cfgs.append({"fam": "po2", "cls": cls, "bits": bits, "hasmv": mv is not None, "mvk": mv or 0, "sl": 0,
                      "mode": "rnd"})
+  for i in (-1, 0, 1):                              # the one-bit sign format of quantized_linear: codes +-2^(integer-1)
+    cfgs.append({"fam": "sign1", "int": i})
   for temp in ([3, 1], [1, 1], [1, -1]):           # temperature 6.0, 2.0, 0.5
     cfgs.append({"fam": "sb", "kind": "stochastic_binary", "alpha": "None", "temp": temp})
   for kind in ("po2_quad", "relu_po2_quad", "po2_floor", "relu_po2_floor"):
